@@ -20,6 +20,7 @@ var vpBuiltinNames = []string{
 	"mapToArr", "join", "toString", "toInt", "toFloat",
 	// names that are not builtins: a missing name, data values that are not functions, host functions of odd shapes
 	"undefinedName", "notAFunction", "hostSlice", "hostOneResult", "hostThreeResults", "hostNonError", "hostIface", "hostMap", "hostVar", "true",
+	"hostCtxVar", "hostCtx", "hostStruct", "hostPtr", "hostNested",
 }
 
 const (
@@ -34,8 +35,17 @@ const (
 	akMaps
 	akTime
 	akFunc
+	akUStruct   // struct with a slice field (not comparable)
+	akArrSlices // Go array of slices (not comparable)
+	akStruct    // comparable struct value
+	akPtr       // pointer to struct
 	akKinds
 )
+
+type vpTagged struct {
+	ID   int
+	Tags []string
+}
 
 func vpArgValue(i int) interface{} {
 	switch vpChoice("ak", akKinds) {
@@ -69,6 +79,14 @@ func vpArgValue(i int) interface{} {
 		return time.Date(2024, 2, 29, 1, 2, 3, 0, time.UTC)
 	case akFunc:
 		return func() (int, error) { return 1, nil }
+	case akUStruct:
+		return vpTagged{ID: 1, Tags: []string{"t"}}
+	case akArrSlices:
+		return [2][]int{{1}, {2}}
+	case akStruct:
+		return vpPerson{Name: "n", Age: 1}
+	case akPtr:
+		return &vpPerson{Name: "p", Age: 2}
 	}
 	return nil
 }
@@ -91,6 +109,11 @@ func VP_C03_calls() {
 		"hostIface":        func(x interface{}) (bool, error) { return x == nil, nil },
 		"hostMap":          func(m map[string]int) (int, error) { return len(m), nil },
 		"hostVar":          func(a int, rest ...string) (int, error) { return a + len(rest), nil },
+		"hostCtxVar":       func(c context.Context, parts ...string) (int, error) { return len(parts), nil },
+		"hostCtx":          func(c context.Context, a string) (int, error) { return len(a), nil },
+		"hostStruct":       func(p vpPerson) (int, error) { return p.Age, nil },
+		"hostPtr":          func(p *vpPerson) (int, error) { return 1, nil },
+		"hostNested":       func(xs [][]int, m map[string][]string) (int, error) { return len(xs) + len(m), nil },
 	}
 	args := new(NodeList[Expression])
 	names := vpArgNames()
